@@ -454,3 +454,44 @@ func VerifC15_MetadataOnlyPluginRestore() {
 	verifrt.Assert(err == nil && !modified && len(c.Log) == n, "C15.meta.restore.idempotent")
 	verifrt.Cover("C15.meta.done")
 }
+
+// VerifC15_TwoRefsSharingAName: names are unique per kind only — a VirtualService and a DestinationRule are commonly
+// both named after the service.  With two referenced resources of different kinds and the *same* name, each is
+// written with the configuration computed from its own original by its own script, and each is restored to its own
+// original.
+func VerifC15_TwoRefsSharingAName() {
+	widget := c15Widget("w1")
+	gadget := c15Widget("w1")
+	gadget.Object["kind"] = "Gadget"
+	gadget.Object["spec"].(map[string]interface{})["mode"] = "gadget-mode"
+	order := verifrt.Bool("refs.gadgetFirst")
+	refs := []v1beta1.ObjectRef{c15Ref, {APIVersion: "demo.verif.io/v1", Kind: "Gadget", Name: "w1"}}
+	if order {
+		refs[0], refs[1] = refs[1], refs[0]
+	}
+	r := c15Ctl(refs...)
+	c := c15Client(widget.DeepCopy(), gadget.DeepCopy())
+	r.Client = c
+	s, w := c15Traffic("s1")
+	if !c15Ensure(r, s, "C15.sameName.apply") {
+		return
+	}
+	gotW := c.Find("Unstructured:Widget", "ns", "w1").(*unstructured.Unstructured)
+	gotG := c.Find("Unstructured:Gadget", "ns", "w1").(*unstructured.Unstructured)
+	cw := w
+	if w < 0 {
+		cw = -1
+	}
+	// the Widget plugin writes spec and labels, the Gadget plugin only metadata
+	verifrt.Assert(gotW.GetLabels()["plugin/canary-weight"] == fmt.Sprintf("%d", cw), "C15.sameName.widgetGetsItsOwnResult")
+	wMode, _, _ := unstructured.NestedString(gotW.Object, "spec", "mode")
+	origMode, _, _ := unstructured.NestedString(widget.Object, "spec", "mode")
+	verifrt.Assert(wMode == origMode, "C15.sameName.widgetKeepsItsOwnSpec")
+	verifrt.Assert(gotG.GetAnnotations()["plugin/canary-weight"] == fmt.Sprintf("%d", cw) && gotG.GetLabels()["plugin/in-canary"] == "true", "C15.sameName.gadgetGetsItsOwnResult")
+	verifrt.Assert(util.DumpJSON(gotG.Object["spec"]) == util.DumpJSON(gadget.Object["spec"]), "C15.sameName.gadgetKeepsItsOwnSpec")
+	modified, err := r.Finalise(context.TODO())
+	verifrt.Assert(err == nil && modified, "C15.sameName.restore.modified")
+	verifrt.Assert(c15SameUserConfig(c.Find("Unstructured:Widget", "ns", "w1").(*unstructured.Unstructured), widget), "C15.sameName.restore.widget")
+	verifrt.Assert(c15SameUserConfig(c.Find("Unstructured:Gadget", "ns", "w1").(*unstructured.Unstructured), gadget), "C15.sameName.restore.gadget")
+	verifrt.Cover("C15.sameName.done")
+}
